@@ -253,19 +253,8 @@ class PathToken(TokenT):
     source: str = field(repr=False)
 
     def __str__(self) -> str:
-        it = iter(self.path)
-        buf = [str(next(it))]
-        for segment in it:
-            if isinstance(segment, PathToken):
-                buf.append(f"[{segment}]")
-            elif isinstance(segment, str):
-                if RE_PROPERTY.fullmatch(segment):
-                    buf.append(f".{segment}")
-                else:
-                    buf.append(f"[{segment!r}]")
-            else:
-                buf.append(f"[{segment}]")
-        return "".join(buf)
+        # The path as it was written, with its quotes, brackets and escapes.
+        return self.source[self.start : self.stop]
 
 
 @dataclass(kw_only=True, slots=True)
